@@ -22,11 +22,12 @@ Ops == {Op("push", t, m) : t \in Tags, m \in Mans}
        \cup {Op("tagdel", t, "") : t \in Tags}
        \cup {Op(k, t, "") : k \in {"head", "get"}, t \in Tags}
        \cup {Op(k, "", m) : k \in {"head", "get"}, m \in Mans}
-       \cup {Op("list", "", "")}
+       \cup {Op("list", "", ""), Op("gc", "", "")}
 
 Step(o) == /\ Len(hist) < MaxLen
            /\ tg' = MTags(tg, o.k, o.t, o.m)
-           /\ ms' = MMans(ms, o.k, o.m)
+           \* (for the generator a collection sweeps every manifest no tag points at)
+           /\ ms' = IF o.k = "gc" THEN ms \cap MProt(tg) ELSE MMans(ms, o.k, o.m)
            /\ hist' = Append(hist, o)
 
 GInit == tg = [t \in Tags |-> NONE] /\ ms = {} /\ hist = <<>>
